@@ -97,3 +97,41 @@ def _lemmas():
 
 _lemmas._mod = __name__
 W.lemmas = getattr(W, 'lemmas', []) + [('C15', 'order', _lemmas)]
+
+
+# ---------------------------------------------------------------- replay of counter-models on the real dawgie.Version
+def _intval(model, t):
+    v = model.eval(t, model_completion=True)
+    return v.as_long() if z3.is_int_value(v) else None
+
+
+def _triple(model, t):
+    vals = [_intval(model, VERSION.get(t, f)) for f in ('design', 'impl', 'bugfix')]
+    return None if any(v is None for v in vals) else tuple(vals)
+
+
+def _version_replay(name, oracle):
+    def replay(model, vc):
+        """build the two versions from the solver's model, call the real operator, compare with tuple order"""
+        import dawgie
+
+        class _V(dawgie.Version):
+            def __init__(self, t):
+                self._version_ = dawgie.VERSION(*t)
+        heap = z3.Array('H_Version._version_', VER.sort(), VERSION.sort())
+        a = _triple(model, heap[vc.inputs['self']])
+        other = vc.inputs.get('other')
+        b = _triple(model, heap[other]) if other is not None else _triple(model, vc.inputs['than'])
+        if a is None or b is None:
+            return None
+        try:
+            got = getattr(_V(a), name)(_V(b) if other is not None else dawgie.VERSION(*b))
+        except Exception as e:
+            return {'reproduced': True, 'input': {'self': a, 'other': b}, 'observed': '%s: %s' % (type(e).__name__, e), 'expected': oracle(a, b)}
+        return {'reproduced': bool(got) != oracle(a, b), 'input': {'self': a, 'other': b}, 'observed': got, 'expected': oracle(a, b)}
+    return staticmethod(replay)
+
+
+for _nm, _or in (('__eq__', lambda a, b: a == b), ('__ne__', lambda a, b: a != b), ('__lt__', lambda a, b: a < b), ('__le__', lambda a, b: a <= b),
+                 ('__gt__', lambda a, b: a > b), ('__ge__', lambda a, b: a >= b), ('newer', lambda a, b: a > b)):
+    W.contracts['dawgie.Version.' + _nm].replay = _version_replay(_nm, _or)
